@@ -68,6 +68,13 @@ struct RecOwn {
 };
 static_assert(sizeof(RecOwn) > 2 * sizeof(size_t), "RecOwn selects the pointer trees");
 
+// operator< of the record types is deliberately UNRELATED to the comparators handed to the merges (position only):
+// library code that falls back to operator< instead of the user's comparator computes wrong splits here
+static bool operator<(const Rec16& a, const Rec16& b) { return a.pos < b.pos; }
+static bool operator<(const Rec24& a, const Rec24& b) { return a.pos < b.pos; }
+static bool operator<(const Rec40& a, const Rec40& b) { return a.pos < b.pos; }
+static bool operator<(const RecOwn& a, const RecOwn& b) { return a.pos < b.pos; }
+
 static int key_of(int v) { return v; }
 static int key_of(const RecOwn& r) { return *r.cell; }
 template <typename R> static int key_of(const R& r) { return r.key; }
